@@ -37,6 +37,7 @@ def base_model(rng):
     dirdefs.append({"name": "tsd", "args": [{"name": "w", "type": N("Int"), "default": None}], "locations": list(TS_LOCS),
                     "awaitable": True})
     dirdefs.append({"name": "tsd2", "args": [], "locations": list(TS_LOCS), "awaitable": True})
+    dirdefs.append({"name": "tsd3", "args": [], "locations": list(TS_LOCS), "awaitable": True})
     schema = {"query": s["query"]}
     if s.get("mutation"):
         schema["mutation"] = s["mutation"]
@@ -126,6 +127,36 @@ def split_into_extensions(rng, m):
         elif k == "SCALAR" and dirs:
             m["exts"].append({"target": t["name"], "kind": k, "dirs": dirs})
     rng.shuffle(m["exts"])
+    # directive-ONLY extensions (they add nothing but a directive), one per kind, in FRONT of every other extension: what
+    # comes after them must still be merged and validated
+    front, seen = [], set()
+    for t in m["types"]:
+        k = t["kind"]
+        if k in seen or t["name"] in gen.BUILTIN_SCALARS:
+            continue
+        seen.add(k)
+        e = {"target": t["name"], "kind": k, "dirs": ["tsd3"]}
+        if k == "ENUM":
+            e["values"] = []
+        elif k == "UNION":
+            e["members"] = []
+        elif k in ("INPUT", "INTERFACE"):
+            e["fields"] = []
+        elif k == "OBJECT":
+            e["fields"], e["interfaces"] = [], []
+        front.append(e)
+    m["exts"][:0] = front
+    # an object that gains an interface through an extension WITHOUT a field block (it already has the required fields),
+    # alone and together with a directive
+    r2 = __import__("random").Random(len(m["types"]) * 101 + len(m["exts"]))      # own generator
+    n_moved = 0
+    for t in m["types"]:
+        if t["kind"] == "OBJECT" and t.get("interfaces") and n_moved < 2 and r2.random() < 0.7:
+            i = t["interfaces"].pop()
+            m["exts"].append({"target": t["name"], "kind": "OBJECT", "dirs": ["tsd2"] if n_moved == 1 and "tsd2" not in t["dirs"]
+                              and not any(e.get("target") == t["name"] and "tsd2" in e["dirs"] for e in m["exts"]) else [],
+                              "fields": [], "interfaces": [i]})
+            n_moved += 1
 
 
 # ------------------------------------------------------------------ printing
